@@ -4,7 +4,8 @@
    (C05_latest_key_checked); a cached key whose flag says revoked is never considered fresh-and-valid (C20_fresh_means
    + is_key_invalid).
    REFUTED on the faithful model (known finding C05-IK): the two-interval bound for a revoked system key fails when a
-   decrypt-path load refreshed / installed the entry (C05_bound_refuted, a computed history). *)
+   decrypt-path load refreshed / installed the entry (C05_bound_refuted, a computed history), and in the duplicate fallback of
+   createIntermediateKey (known finding C05-DUP, C05_duplicate_fallback_refuted). *)
 From Asherah Require Import Envelope.Session Envelope.Frame Envelope.FrameInst Envelope.Rotation.
 
 Theorem C05_latest_key_checked : forall cid rci ex id loader w k w',
@@ -19,3 +20,17 @@ Theorem C05_bound_refuted :
   last_enc_parent witness_revocation = Some (t0 / sec) /\ nth_enc_parent 7 witness_revocation = Some (t0 / sec + 85).
 Proof. exact C05_refuted_by_decrypt_refresh. Qed.
 Print Assumptions C05_bound_refuted.
+
+(* known finding C05-DUP on the faithful model: the same duplicate fallback adopts an intermediate key whose system key was revoked
+   three intervals earlier *)
+From Asherah Require Import Envelope.DupWitness.
+
+Theorem C05_duplicate_fallback_refuted :
+  nth_enc_parent 9 witness_dup_revoked = Some (t0 / sec + 80) /\
+  option_map (fun x => existsb (fun e => match e with EvMStore i c _ StFalse => str_eqb i ik_p && (c =? t0 / sec + 80) | _ => false end) (snd x))
+             (nth_error (fst (hrun (hinit t0) witness_dup_revoked)) 9) = Some true /\
+  row_parent (w_store (h_world (snd (hrun (hinit t0) witness_dup_revoked)))) ik_p (t0 / sec + 80) = Some (t0 / sec) /\
+  row_revoked (w_store (h_world (snd (hrun (hinit t0) witness_dup_revoked)))) (s "_SK_svc_prod") (t0 / sec) = Some true /\
+  30 * sec > 2 * p_rci pol_nc.
+Proof. exact C05_refuted_by_duplicate_fallback. Qed.
+Print Assumptions C05_duplicate_fallback_refuted.
